@@ -1,8 +1,9 @@
 """C11 -- check_constraints accepts exactly what the constraints admit (plumbing; DESIGN.md section 4 C11)."""
 import ast
+import re
 
 from ..model import AnalysisError, Model, walk_no_nested, norm_stmt, names_in
-from .. import flow, dispatch, copyrule
+from .. import flow, dispatch, copyrule, sem
 
 EXPLANATION = (
     'Decided: (R1) every checker class that receives a range calls is_in_range in encode and raises ConstraintsError on the false branch; '
@@ -46,94 +47,142 @@ def check(ctx):
                     sets = True
         if sets or c.name == 'Integer':
             ranged.append(c)
+    measure = {'String': 'len(ARG0)', 'Bytes': 'len(ARG0)', 'List': 'len(ARG0)', 'BitString': 'ARG0[1]', 'Integer': 'ARG0'}
     for c in ranged:
         enc = c.find_method('encode')
         f = enc[1] if enc else None
-        ok = False
-        if f is not None:
-            for n in walk_no_nested(f):
-                if isinstance(n, ast.If) and isinstance(n.test, ast.UnaryOp) and isinstance(n.test.op, ast.Not) \
-                        and isinstance(n.test.operand, ast.Call) and ast.unparse(n.test.operand.func) == 'self.is_in_range' \
-                        and any(isinstance(r, ast.Raise) and r.exc is not None and 'ConstraintsError' in ast.unparse(r.exc) for r in n.body) \
-                        and getattr(n, '_parent', None) is f:
-                    ok = True
-        ctx.instance('C11.R1', '%s.encode checks is_in_range' % c.qname, 'ok' if ok else 'VIOLATION', node=f or c.node, file=CC)
+        ps = sem.paths(f, positional=True) if f is not None else None
+        if f is None or ps is None:
+            ctx.instance('C11.R1', '%s.encode checks is_in_range' % c.qname, 'VIOLATION' if f is None else 'undecided', nontrivial=False, node=f or c.node, file=CC)
+            if f is None:
+                ctx.violation('C11.R1', CC, c.node, c.qname + '.encode', 'checker class %s receives a range but has no encode' % c.name, stmt='is_in_range test')
+            continue
+        # every way out of encode other than raising ConstraintsError has established self.is_in_range(<measured value>)
+        lit_re = re.compile(r'^self\.is_in_range\((.*)\)$')
+        ok = True
+        measured = set()
+        n_exit = 0
+        for p in ps:
+            in_lits = [(c_[0], c_[1]) for c_ in p.conds if lit_re.match(c_[0])]
+            for t_, pol_ in in_lits:
+                measured.add(lit_re.match(t_).group(1))
+            if p.outcome[0] == 'raise':
+                continue
+            n_exit += 1
+            if not any(pol_ for _t, pol_ in in_lits):
+                ok = False
+        for p in ps:
+            if any(lit_re.match(c_[0]) and not c_[1] for c_ in p.conds) and p.outcome[0] != 'raise':
+                ok = False
+        ok = ok and n_exit >= 1
+        ctx.instance('C11.R1', '%s.encode checks is_in_range(%s)' % (c.qname, ', '.join(sorted(measured))), 'ok' if ok else 'VIOLATION', node=f, file=CC)
         if not ok:
-            ctx.violation('C11.R1', CC, f or c.node, c.qname + '.encode',
+            ctx.violation('C11.R1', CC, f, c.qname + '.encode',
                           'checker class %s receives a range but its encode does not unconditionally test self.is_in_range(...) and raise ConstraintsError' % c.name,
                           stmt='is_in_range test')
+        # what is measured: len(data) for String/Bytes/List, data[1] for BitString, data for Integer
+        if c.name in measure and f._cls is c:
+            want = measure[c.name]
+            okm = measured == {want}
+            ctx.instance('C11.R1', '%s measures %s' % (c.qname, sorted(measured)), 'ok' if okm else 'VIOLATION', node=f, file=CC)
+            if not okm:
+                ctx.violation('C11.R1', CC, f, c.qname + '.encode', '%s must compare %s with its range, but compares %s' % (c.name, want.replace('ARG0', 'data'), sorted(measured)), stmt='measured quantity')
     if len(ranged) < 9:
         raise AnalysisError('C11.R1: only %d ranged checker classes found' % len(ranged))
-    # what is measured: len(data) for String/Bytes/List, data[1] for BitString, data for Integer
-    measure = {'String': 'len(data)', 'Bytes': 'len(data)', 'List': 'len(data)', 'BitString': 'data[1]', 'Integer': 'data'}
-    for cn, want in measure.items():
-        c = model.cls(CC, cn)
-        f = c.methods['encode']
-        call = [n for n in walk_no_nested(f) if isinstance(n, ast.Call) and ast.unparse(n.func) == 'self.is_in_range']
-        got = None
-        if call:
-            a = call[0].args[0]
-            got = ast.unparse(a)
-            if isinstance(a, ast.Name):
-                b = [x.value for x in walk_no_nested(f) if isinstance(x, ast.Assign) and isinstance(x.targets[0], ast.Name) and x.targets[0].id == a.id]
-                if len(b) == 1:
-                    got = ast.unparse(b[0])
-        ok = got == want
-        ctx.instance('C11.R1', '%s measures %s' % (c.qname, got), 'ok' if ok else 'VIOLATION', node=f, file=CC)
-        if not ok:
-            ctx.violation('C11.R1', CC, f, c.qname + '.encode', '%s must compare %s with its range, but compares %s' % (cn, want, got), stmt='measured quantity')
-    # alphabet
+    # alphabet: every character of the data is tested for membership, a character outside raises
     f = model.cls(CC, 'String').methods['encode']
-    ok = any(isinstance(n, ast.If) and isinstance(n.test, ast.Compare) and isinstance(n.test.ops[0], ast.NotIn)
-             and ast.unparse(n.test.comparators[0]) == 'self.permitted_alphabet'
-             and any(isinstance(r, ast.Raise) and 'ConstraintsError' in ast.unparse(r) for r in n.body) for n in walk_no_nested(f))
+    ps = sem.paths(f, positional=True) or []
+    body = [p for p in sem.with_loop_bodies(ps)]
+    loops_over_data = [ev for p in ps for ev in p.events if ev[0] == 'loop' and ev[1] == 'ARG0']
+    def raises_constraints_error(p_, cls_):
+        if p_.outcome[0] != 'raise':
+            return False
+        if p_.outcome[1] == 'ConstraintsError':
+            return True
+        r_ = cls_.find_method(p_.outcome[1]) or (None, cls_.mod.functions.get(p_.outcome[1]))
+        g_ = r_[1] if r_ else None
+        return g_ is not None and any(isinstance(x_, ast.Return) and x_.value is not None and 'ConstraintsError' in ast.unparse(x_.value) for x_ in walk_no_nested(g_))
+    ok = any(raises_constraints_error(p, model.cls(CC, 'String')) and any(c_[0].endswith(' in self.permitted_alphabet') and '@' in c_[0] and not c_[1] for c_ in p.conds) for p in body)
     ctx.instance('C11.R1', 'String.encode tests every character against permitted_alphabet', 'ok' if ok else 'VIOLATION', node=f, file=CC)
     if not ok:
         ctx.violation('C11.R1', CC, f, 'constraints_checker.String.encode', 'permitted-alphabet membership test missing', stmt='alphabet test')
-    # the alphabet loop iterates over the data itself
-    loops_ = [n for n in walk_no_nested(f) if isinstance(n, ast.For)]
-    ok = any(ast.unparse(l.iter) == 'data' for l in loops_)
+    ok = bool(loops_over_data)
     ctx.instance('C11.R1', 'String.encode iterates over all characters', 'ok' if ok else 'VIOLATION', node=f, file=CC)
     if not ok:
         ctx.violation('C11.R1', CC, f, 'constraints_checker.String.encode', 'the alphabet test does not visit every character of data', stmt='alphabet loop')
     # containers recurse
-    for cn, coll, call in (('Dict', 'self.members', 'member.encode'), ('List', 'data', 'self.element_type.encode'),
-                           ('Choice', None, 'member.encode'), ('Recursive', None, 'self.inner.encode')):
+    for cn, coll, recv in (('Dict', 'self.members', None), ('List', 'ARG0', 'self.element_type'), ('Choice', None, None), ('Recursive', None, 'self.inner')):
         f = model.cls(CC, cn).methods['encode']
-        calls = [n for n in walk_no_nested(f) if isinstance(n, ast.Call) and ast.unparse(n.func) == call]
-        ok = bool(calls)
-        if ok and coll:
-            p = calls[0]
-            inloop = False
-            for a in flow.ancestors(p):
-                if isinstance(a, ast.For) and ast.unparse(a.iter) == coll:
-                    inloop = True
-            ok = inloop
-        ctx.instance('C11.R1', '%s.encode recurses via %s' % (cn, call), 'ok' if ok else 'VIOLATION', node=f, file=CC)
+        ps = sem.paths(f, positional=True) or []
+        ok = False
+        for p in ps:
+            inloop = None
+            for ev in p.events:
+                if ev[0] == 'loop':
+                    inloop = ev[1]
+                elif ev[0] == 'endloop':
+                    inloop = None
+                if ev[0] in ('call', 'in-loop:call') and sem.callee_name(ev[3]) == 'encode' and isinstance(ev[3].func, ast.Attribute):
+                    r_ = sem.ctext(ev[3].func.value)
+                    if recv is not None and r_ != recv:
+                        continue
+                    if coll is None and ev[0] == 'call':
+                        ok = True
+                    if coll is not None and ev[0] == 'in-loop:call':
+                        ok = ok or any(e2[0] == 'loop' and e2[1] == coll for e2 in p.events)
+        ctx.instance('C11.R1', '%s.encode recurses into its children' % cn, 'ok' if ok else 'VIOLATION', node=f, file=CC)
         if not ok:
-            ctx.violation('C11.R1', CC, f, 'constraints_checker.%s.encode' % cn, 'container does not check every child (%s over %s)' % (call, coll), stmt='recursion')
-    # is_in_range operators
+            ctx.violation('C11.R1', CC, f, 'constraints_checker.%s.encode' % cn, 'container does not check every child (encode over %s)' % (coll or 'the selected member'), stmt='recursion')
+    # is_in_range: (no lower bound or v >= min) and (no upper bound or v <= max), as a set of satisfying cases
     f = typ.methods['is_in_range']
-    src = ast.unparse(f)
-    ok = 'value >= self.minimum' in src and 'value <= self.maximum' in src and 'not self.has_lower_bound()' in src and 'not self.has_upper_bound()' in src \
-        and 'minimum_ok and maximum_ok' in src
-    ctx.instance('C11.R1', 'is_in_range: (no lower or v >= min) and (no upper or v <= max)', 'ok' if ok else 'VIOLATION', node=f, file=CC)
-    if not ok:
+
+    def truth_cases(fn):
+        """DNF (set of frozensets of literals) of the conditions under which fn returns a true value; None when not decided"""
+        ps_ = sem.paths(fn, positional=True)
+        if ps_ is None:
+            return None
+        cases = set()
+        for p in ps_:
+            if p.outcome[0] != 'return':
+                continue
+            base_ = frozenset((c_[0], c_[1]) for c_ in p.conds)
+            e_ = p.outcome[3]
+            if isinstance(e_, ast.Constant):
+                if e_.value:
+                    cases.add(base_)
+                continue
+            for conj in sem.dnf(sem.cond_formula(e_)):
+                cases.add(base_ | frozenset((l_[0], l_[1]) for l_ in conj))
+        return cases
+
+    def lits(*srcs):
+        return frozenset(sem.ccond(sem.parse_expr(x)) for x in srcs)
+    want = {lits('not self.has_lower_bound()', 'not self.has_upper_bound()'), lits('not self.has_lower_bound()', 'ARG0 <= self.maximum'),
+            lits('ARG0 >= self.minimum', 'not self.has_upper_bound()'), lits('ARG0 >= self.minimum', 'ARG0 <= self.maximum')}
+    got = truth_cases(f)
+    # a case that repeats a literal of a weaker case is subsumed: compare the minimal cases
+    def minimal(cs):
+        return {c_ for c_ in cs if not any(o_ < c_ for o_ in cs)}
+    ok = got is not None and minimal(got) == want
+    ctx.instance('C11.R1', 'is_in_range: (no lower or v >= min) and (no upper or v <= max)', 'ok' if ok else ('undecided' if got is None else 'VIOLATION'), node=f, file=CC)
+    if not ok and got is not None:
         ctx.violation('C11.R1', CC, f, 'constraints_checker.Type.is_in_range', 'bound comparison changed (must be inclusive on both ends and conjunctive)', stmt='is_in_range')
     for nm, const in (('has_lower_bound', 'MIN'), ('has_upper_bound', 'MAX')):
         g = typ.methods[nm]
-        want = "return self.%s != '%s'" % ('minimum' if const == 'MIN' else 'maximum', const)
-        ok = want in ast.unparse(g)
+        got = truth_cases(g)
+        want1 = {lits("self.%s != '%s'" % ('minimum' if const == 'MIN' else 'maximum', const))}
+        ok = got is not None and minimal(got) == want1
         ctx.instance('C11.R1', nm, 'ok' if ok else 'VIOLATION', node=g, file=CC)
         if not ok:
-            ctx.violation('C11.R1', CC, g, 'constraints_checker.Type.' + nm, '%s must be `%s`' % (nm, want), stmt=nm)
+            ctx.violation('C11.R1', CC, g, 'constraints_checker.Type.' + nm, "%s must be `self.%s != '%s'`" % (nm, 'minimum' if const == 'MIN' else 'maximum', const), stmt=nm)
 
     # ---- R2
     tab = dispatch.table(model, 'constraints_checker')
     per_tab = dispatch.table(model, 'per')
     string_kinds = set(cc.const_value('STRING_TYPES'))
+    tv = sem.View(tab.func)
     for name, cell in sorted(tab.cells.items()):
-        args = ' '.join(cell.arg_src())
+        args = ' '.join([tv.text(a_) for a_ in cell.ctor.args] + ['%s=%s' % (k_.arg, tv.text(k_.value)) for k_ in cell.ctor.keywords]) if cell.ctor is not None else ''
         has_size = 'self.get_size_range(' in args
         has_alpha = 'self.get_permitted_alphabet(' in args
         want_size = name in SIZE_KINDS or name in string_kinds
@@ -158,14 +207,15 @@ def check(ctx):
     # the tail condition must not be narrowed by a type test
     for s in tab.tail:
         if isinstance(s, ast.If) and "'restricted-to'" in ast.unparse(s.test):
-            ok = ast.unparse(s.test) == "'restricted-to' in type_descriptor"
+            ok = sem.ccond(s.test) == ("'restricted-to' in type_descriptor", True)
             ctx.instance('C11.R2', 'restricted-to applied unconditionally for every kind', 'ok' if ok else 'VIOLATION', node=s, file=CC)
             if not ok:
                 ctx.violation('C11.R2', CC, s, 'constraints_checker.Compiler.compile_type', 'restricted-to is applied only under an extra condition (%s)' % ast.unparse(s.test), stmt='restricted-to condition')
     # Integer receives its range through set_restricted_to_range -> set_range
     for nm in ('set_size_range', 'set_restricted_to_range'):
         g = typ.methods[nm]
-        ok = 'self.set_range(minimum, maximum, has_extension_marker)' in ast.unparse(g)
+        gps = sem.paths(g, positional=True) or []
+        ok = bool(gps) and all(any(t_ == 'self.set_range(ARG0, ARG1, ARG2)' for t_, _n in p.calls('set_range')) for p in gps if p.outcome[0] != 'raise')
         ctx.instance('C11.R2', 'Type.%s -> set_range' % nm, 'ok' if ok else 'VIOLATION', node=g, file=CC)
         if not ok:
             ctx.violation('C11.R2', CC, g, 'constraints_checker.Type.' + nm, '%s no longer forwards (minimum, maximum, has_extension_marker) to set_range' % nm, stmt=nm)
@@ -173,59 +223,82 @@ def check(ctx):
     # ---- R3 must-pass-through
     for qual, mode in (('Specification.encode', 'before'), ('Specification.decode', 'after'), ('Specification.decode_with_length', 'after')):
         f = model.func(COMP, qual)
-        chk = [n for n in walk_no_nested(f) if isinstance(n, ast.Call) and isinstance(n.func, ast.Attribute) and n.func.attr == 'check_constraints']
-        codec = [n for n in walk_no_nested(f) if isinstance(n, ast.Call) and isinstance(n.func, ast.Attribute)
-                 and n.func.attr in (('encode',) if mode == 'before' else ('decode', 'decode_with_length')) and ast.unparse(n.func.value) == 'type_']
-        ok = len(chk) == 1 and len(codec) == 1
+        params = flow.param_names(f)[1:]
+        flag = 'ARG%d' % params.index('check_constraints')
+        data = 'ARG%d' % params.index('data')
+        ps = sem.paths(f, positional=True)
+        if ps is None:
+            ctx.instance('C11.R3', Model.qual(f), 'undecided', 'too many paths', nontrivial=False, node=f, file=COMP)
+            continue
+        ok = True
         why = ''
-        if ok:
-            c, k = chk[0], codec[0]
-            g = [t for t, pol in flow.guards_of(c, f)]
-            ok = len(g) == 1 and ast.unparse(g[0]) == 'check_constraints'
-            if not ok:
-                why = 'check_constraints(...) is not guarded exactly by `if check_constraints`'
+        n_checked = 0
+        codec_names = ('encode',) if mode == 'before' else ('decode', 'decode_with_length')
+        for p in ps:
+            if p.outcome[0] != 'return':
+                continue
+            calls = [(i, ev) for i, ev in enumerate(p.events) if ev[0] == 'call']
+            chk = [(i, ev) for i, ev in calls if sem.callee_name(ev[2]) == 'check_constraints']
+            cod = [(i, ev) for i, ev in calls if sem.callee_name(ev[3]) in codec_names and isinstance(ev[3].func, ast.Attribute) and ev[3].args and sem.ctext(ev[3].args[0]) == data]
+            if not cod:
+                ok, why = False, 'no codec call on a returning path'
+                break
+            if not p.has(flag, True):
+                if p.has(flag, False):
+                    continue
+                # the flag is not tested on this path: then the check must be there anyway
+            if not chk:
+                ok, why = False, 'a return is reachable with check_constraints=True without the value passing check_constraints'
+                break
+            n_checked += 1
+            ci, cev = chk[0]
+            ki, kev = cod[0]
+            carg = sem.ctext(cev[3].args[0]) if cev[3].args else None
+            if mode == 'before':
+                karg = sem.ctext(kev[3].args[0]) if kev[3].args else None
+                if not (ci < ki and carg == karg == data):
+                    ok, why = False, 'the value checked is not the value encoded, or the check comes after the encode'
+                    break
             else:
-                # order + argument
-                if mode == 'before':
-                    ok = (c.lineno < k.lineno) and ast.unparse(c.args[0]) == ast.unparse(k.args[0])
-                    if not ok:
-                        why = 'the value checked is not the value encoded, or the check comes after the encode'
-                else:
-                    st = Model.enclosing_stmt(k)
-                    names = flow.target_names(st.targets[0]) if isinstance(st, ast.Assign) else []
-                    ok = c.lineno > k.lineno and bool(names) and ast.unparse(c.args[0]) == names[0]
-                    rets = [r for r in walk_no_nested(f) if isinstance(r, ast.Return)]
-                    ok = ok and all(r.lineno > c.lineno for r in rets)
-                    if not ok:
-                        why = 'a return is reachable without the decoded value passing check_constraints'
-                # the guard must be a top-level statement of the function (not nested in another condition)
-                if ok:
-                    ifn = [a for a in flow.ancestors(c) if isinstance(a, ast.If)][0]
-                    ok = getattr(ifn, '_parent', None) is f
-                    if not ok:
-                        why = 'the check is nested inside another condition'
-        else:
-            why = 'expected exactly one check_constraints call and one codec call'
+                ktext = kev[1]
+                if not (ci > ki and carg in (ktext, ktext + '[0]')):
+                    ok, why = False, 'the value checked is not the decoded value'
+                    break
+                ret = p.outcome[1]
+                if not (ktext in ret):
+                    ok, why = False, 'the value returned is not the decoded (and checked) value'
+                    break
+        if ok and n_checked == 0:
+            ok, why = False, 'no path passes the value through check_constraints'
         ctx.instance('C11.R3', Model.qual(f), 'passes through check_constraints' if ok else 'VIOLATION', why, node=f, file=COMP)
         if not ok:
             ctx.violation('C11.R3', COMP, f, Model.qual(f), why + ': with check_constraints=True a violating value reaches the wire / the caller unchecked', stmt='must-pass-through')
     # CompiledType.check_constraints dispatches to the constraints checker's encode
     f = model.func(BASE, 'CompiledType.check_constraints')
-    ok = 'self.constraints_checker.encode(data)' in ast.unparse(f)
+    cps = sem.paths(f, positional=True) or []
+    ok = bool(cps) and all(any(t_ == 'self.constraints_checker.encode(ARG0)' for t_, _n in p.calls('encode')) for p in cps if p.outcome[0] != 'raise')
     ctx.instance('C11.R3', Model.qual(f), 'ok' if ok else 'VIOLATION', node=f, file=BASE)
     if not ok:
         ctx.violation('C11.R3', BASE, f, Model.qual(f), 'check_constraints no longer runs the constraints checker', stmt='dispatch')
     # Specification.__init__ attaches the checker compiled for the same module/type
     f = model.func(COMP, 'Specification.__init__')
-    ok = 'type_.constraints_checker = constraints_checkers[module_name][type_name]' in ast.unparse(f)
+    ips = sem.with_loop_bodies(sem.paths(f, positional=True) or [])
+    cparam = 'ARG%d' % flow.param_names(f)[1:].index('constraints_checkers')
+    ok = False
+    for p in ips:
+        for ev in p.events:
+            if ev[0] == 'store' and '.constraints_checker = ' in ev[1]:
+                m_ = re.match(r'^(\S+)\.constraints_checker = %s\[(\w+@\d+)\]\[(\w+@\d+)\]$' % cparam, ev[1])
+                ok = bool(m_) and m_.group(2) != m_.group(3)
     ctx.instance('C11.R3', 'Specification.__init__ attaches constraints_checkers[module][type]', 'ok' if ok else 'VIOLATION', node=f, file=COMP)
     if not ok:
         ctx.violation('C11.R3', COMP, f, Model.qual(f), 'the constraints checker attached to a type is not the one compiled for that module and type name', stmt='attach')
 
     # ---- R4
     f = typ.methods['set_range']
-    first = f.body[0]
-    ok = isinstance(first, ast.If) and ast.unparse(first.test) == 'has_extension_marker' and isinstance(first.body[0], ast.Return) and first.body[0].value is None
+    rps = sem.paths(f, positional=True) or []
+    ext = [p for p in rps if p.has('ARG2', True)]
+    ok = bool(ext) and all(not any(ev[0] == 'store' for ev in p.events) for p in ext) and any(any(ev[0] == 'store' for ev in p.events) for p in rps if p.has('ARG2', False))
     # no store to self.minimum/maximum before it
     ctx.instance('C11.R4', 'Type.set_range returns first when extensible', 'ok' if ok else 'VIOLATION', node=f, file=CC)
     if not ok:
@@ -242,8 +315,8 @@ def check(ctx):
     base = model.mod(BASE)
     for nm in ('get_size_range', 'get_restricted_to_range'):
         g = model.func(BASE, 'Compiler.' + nm)
-        src = ast.unparse(g)
-        ok = 'self.lookup_value(' in src and 'EXTENSION_MARKER in' in src
+        ok = any(isinstance(n_, ast.Call) and sem.callee_name(n_) == 'lookup_value' for n_ in ast.walk(g)) and \
+            any(isinstance(n_, ast.Compare) and isinstance(n_.ops[0], (ast.In, ast.NotIn)) and 'EXTENSION_MARKER' in names_in(n_.left) for n_ in ast.walk(g))
         ctx.instance('C11.R5', 'base Compiler.%s resolves value references and reports the extension marker' % nm, 'ok' if ok else 'VIOLATION', node=g, file=BASE)
         if not ok:
             ctx.violation('C11.R5', BASE, g, Model.qual(g), '%s no longer resolves value references / the extension marker' % nm, stmt=nm)
